@@ -68,15 +68,31 @@ def run(tier, replay=None):
     if bad_stops:
         raise ToolError(f"generator produced a program that leaves the convention on the reference machine: {bad_stops}")
     # spellings: the same programs also with numeric register names and tabs (C13 covers the rest)
+    # "any subset of saved registers, any register spelling and layout": every program also with its saved and
+    # temporary registers permuted inside their class (a conforming program stays conforming), tabs, numeric names
+    import re
+    SAVED = ["s0", "s1", "s2", "s3", "s4", "s5", "s6", "s7", "s8", "s9", "s10", "s11"]
+    TEMPS = ["t0", "t1", "t2", "t3", "t4", "t5", "t6"]
+    NUM = {"zero": 0, "ra": 1, "sp": 2, "gp": 3, "tp": 4, "t0": 5, "t1": 6, "t2": 7, "s0": 8, "s1": 9, "a0": 10, "a1": 11, "a2": 12,
+           "a3": 13, "a4": 14, "a5": 15, "a6": 16, "a7": 17, "s2": 18, "s3": 19, "s4": 20, "s5": 21, "s6": 22, "s7": 23, "s8": 24,
+           "s9": 25, "s10": 26, "s11": 27, "t3": 28, "t4": 29, "t5": 30, "t6": 31}
+    regre = re.compile(r"(?<![\w.])(zero|ra|sp|gp|tp|[sta]\d+)(?![\w:])")
+
+    def respell(t, i):
+        k = i % 6
+        if k == 1:
+            return t.replace("    ", "\t")
+        if k in (2, 3, 4):       # rotate the saved class by 3 / 7 / 11 and the temporaries by 2 / 4 / 6
+            rs, rt = (3, 2) if k == 2 else ((7, 4) if k == 3 else (11, 6))
+            m = {r: SAVED[(j + rs) % 12] for j, r in enumerate(SAVED)}
+            m.update({r: TEMPS[(j + rt) % 7] for j, r in enumerate(TEMPS)})
+            return regre.sub(lambda x: m.get(x.group(1), x.group(1)), t)
+        if k == 5:               # numeric names for every register
+            return regre.sub(lambda x: "x%d" % NUM[x.group(1)] if x.group(1) in NUM else x.group(1), t)
+        return t
     hc = []
     for i, c in enumerate(cases):
-        t = c["text"]
-        if i % 3 == 1:
-            t = t.replace("    ", "\t")
-        if i % 3 == 2:
-            for a, b in (("a0", "x10"), ("s0", "x8"), ("sp", "x2"), ("t0", "x5"), ("ra", "x1")):
-                t = t.replace(a, b)
-        hc.append({"id": i + 1, "mode": "observe", "text": t, "want": ["nodes", "errors", "lints"]})
+        hc.append({"id": i + 1, "mode": "observe", "text": respell(c["text"], i), "want": ["nodes", "errors", "lints"]})
     tp, hevs = run_harness(rvh, hc, wd, "conform")
     tr = [{"id": e["id"], "ev": e["ev"], "prop": "C04", "case": {"inj": "", "codes": [], "line": -1, "alt": -1, "reg": -1},
            "diags": diags_of(e) if e["ev"] == "obs" else []} for e in hevs]
@@ -97,5 +113,5 @@ def run(tier, replay=None):
     return out.finish(extra_cov={
         "programs": len(cases), "confirmed_on_machine": len(conf), "machine_stops": sorted(stops), "exhaustive": False,
         "evaluations": len(cases), "distinct_nontrivial": len({c["text"] for c in cases}),
-        "rule": "tlc -simulate over Gen_Conform: leaf templates (loop, if-else, stack local, print ecall, two arguments) x non-leaf templates (wrapper with saved register, recursion, two calls with two saved registers) x 5 frame layouts x call sequences of main (<= 3 calls, constants) x optional third function; three spellings (spaces / tabs / numeric registers)",
+        "rule": "tlc -simulate over Gen_Conform: leaf templates (loop, if-else, stack local, print ecall, two arguments) x non-leaf templates (wrapper with saved register, recursion, two calls with two saved registers) x 5 frame layouts x call sequences of main (<= 3 calls, constants) x optional third function; six spellings (spaces / tabs / saved and temporary registers rotated inside their class by three different amounts / numeric names for every register); the covering family (every template x every way its result is consumed) in full",
     })
